@@ -140,3 +140,242 @@ def gen_segm_table():
     out += f'def dmapUsesRelabelMap : Bool := {"true" if indexes_relabel else "false"}\n\n'
     out += 'end PhotVerif.Gen.SegmTable\n'
     return 'SegmTable.lean', src, out
+
+
+# ------------------------------------------------------------------ Background2D resource lifetime
+def _bkg_events(tree, method, depth=0):
+    """ordered events of one Background2D method: ('use', res, selective) / ('drop', res, guard_keys, or_thr_none, selective)"""
+    RES = {'_bkg_stats': 0, '_bkgrms_stats': 1}
+    KEYS = {'background_mesh': 0, 'background_rms_mesh': 1}
+    if depth > 3:
+        raise Unsupported('Background2D: inlining too deep')
+    m = _cls_method(tree, 'Background2D', method)
+    events = []
+
+    def guard_of(test):
+        parts = test.values if isinstance(test, ast.BoolOp) and isinstance(test.op, ast.Or) else [test]
+        keys, thr = [], False
+        for p in parts:
+            if isinstance(p, ast.Compare) and len(p.ops) == 1 and isinstance(p.ops[0], ast.In) \
+                    and isinstance(p.left, ast.Constant) and p.left.value in KEYS:
+                keys.append(KEYS[p.left.value])
+            elif isinstance(p, ast.Compare) and len(p.ops) == 1 and isinstance(p.ops[0], ast.Is) \
+                    and isinstance(p.left, ast.Attribute) and p.left.attr == 'filter_threshold' \
+                    and isinstance(p.comparators[0], ast.Constant) and p.comparators[0].value is None:
+                thr = True
+            else:
+                raise Unsupported(f'Background2D.{method}: unrecognised drop guard {ast.unparse(test)}')
+        return keys, thr
+
+    def expr_events(node, selective):
+        found = []
+        for x in ast.walk(node):
+            if isinstance(x, ast.Attribute) and isinstance(x.value, ast.Name) and x.value.id == 'self' \
+                    and x.attr in RES and isinstance(x.ctx, ast.Load):
+                found.append((x.lineno, x.col_offset, [('use', RES[x.attr], selective)]))
+            if isinstance(x, ast.Call) and isinstance(x.func, ast.Attribute) and isinstance(x.func.value, ast.Name) \
+                    and x.func.value.id == 'self' and x.func.attr in ('_filter_grid', '_selective_filter'):
+                sub = _bkg_events(tree, x.func.attr, depth + 1)
+                sub = [(e[0], e[1], *(e[2:-1]), e[-1] or selective) for e in sub]
+                # the call happens after its arguments are evaluated: position it at the closing paren
+                found.append((x.end_lineno, x.end_col_offset, sub))
+        found.sort(key=lambda t: (t[0], t[1]))
+        out = []
+        for _, _, ev in found:
+            out.extend(ev)
+        return out
+
+    def visit(stmts, selective, guard):
+        for st in stmts:
+            if isinstance(st, ast.If):
+                # value of the test itself
+                events.extend(expr_events(st.test, selective))
+                mentions_thr = any(isinstance(x, ast.Attribute) and x.attr == 'filter_threshold' for x in ast.walk(st.test))
+                only_drops = all(isinstance(b, ast.Assign) and isinstance(b.value, ast.Constant) and b.value.value is None
+                                 for b in st.body)
+                if only_drops and not st.orelse:
+                    g = guard_of(st.test)
+                    visit(st.body, selective, g)
+                elif method == '_filter_grid' and mentions_thr:
+                    visit(st.body, selective, guard)          # generic-filter branch
+                    visit(st.orelse, True, guard)             # selective branch
+                else:
+                    visit(st.body, selective, guard)
+                    visit(st.orelse, selective, guard)
+            elif isinstance(st, ast.Assign) and len(st.targets) == 1 and isinstance(st.targets[0], ast.Attribute) \
+                    and isinstance(st.targets[0].value, ast.Name) and st.targets[0].value.id == 'self' \
+                    and st.targets[0].attr in RES:
+                if not (isinstance(st.value, ast.Constant) and st.value.value is None):
+                    raise Unsupported(f'Background2D.{method}: resource reassigned to non-None')
+                gk, thr = guard if guard else ([], False)
+                events.append(('drop', RES[st.targets[0].attr], gk, thr, selective))
+            elif isinstance(st, (ast.For, ast.While, ast.With)):
+                events.extend(expr_events(st, selective))
+            else:
+                events.extend(expr_events(st, selective))
+    visit(m.body, False, None)
+    return events
+
+
+def gen_bkg2d_table():
+    path = os.path.join(REPO, 'photutils/background/background_2d.py')
+    src = open(path).read()
+    tree = ast.parse(src)
+    rows = {'bkgMeshSteps': _bkg_events(tree, 'background_mesh'),
+            'rmsMeshSteps': _bkg_events(tree, 'background_rms_mesh')}
+    out = ('/- GENERATED by tools/extract_tables.py from photutils/background/background_2d.py '
+           f'(sha256/16 {sha(src)}). DO NOT EDIT. -/\n'
+           'import PhotVerif.Model.Lazy\nnamespace PhotVerif.Gen.Bkg2DTable\n\n'
+           '/-- one event of a lazy read: use / drop of resource `res` (0 = _bkg_stats, 1 = _bkgrms_stats);\n'
+           '    `onlySelective`: happens only on the selective-filter path; drop guard = any of `guardKeys` cached\n'
+           '    (0 = background_mesh, 1 = background_rms_mesh) or (`orThrNone` and filter_threshold is None) -/\n'
+           'structure Step where\n  isDrop : Bool\n  res : Nat\n  onlySelective : Bool\n  guardKeys : List Nat\n'
+           '  orThrNone : Bool\n  unconditional : Bool\nderiving DecidableEq, Repr\n\n')
+    for name, evs in rows.items():
+        items = []
+        for e in evs:
+            if e[0] == 'use':
+                items.append(f'⟨false, {e[1]}, {"true" if e[2] else "false"}, [], false, true⟩')
+            else:
+                uncond = (not e[2]) and (not e[3])
+                items.append(f'⟨true, {e[1]}, {"true" if e[4] else "false"}, {e[2]}, '
+                             f'{"true" if e[3] else "false"}, {"true" if uncond else "false"}⟩')
+        out += f'def {name} : List Step := [{", ".join(items)}]\n\n'
+    out += 'end PhotVerif.Gen.Bkg2DTable\n'
+    return 'Bkg2DTable.lean', src, out
+
+
+# ------------------------------------------------------------------ profile normalisation
+def gen_profile_table():
+    p1 = os.path.join(REPO, 'photutils/profiles/core.py')
+    p2 = os.path.join(REPO, 'photutils/profiles/radial_profile.py')
+    src1, src2 = open(p1).read(), open(p2).read()
+    t1, t2 = ast.parse(src1), ast.parse(src2)
+    KEYS = ['profile', 'profile_error', 'data_profile']
+
+    def rescaled(method, factor_name, op):
+        m = _cls_method(t1, 'ProfileBase', method)
+        found = {}
+
+        def visit(stmts, cond_key):
+            for st in stmts:
+                if isinstance(st, ast.If):
+                    ck = None
+                    t = st.test
+                    if isinstance(t, ast.Compare) and isinstance(t.left, ast.Constant) and t.left.value in KEYS \
+                            and isinstance(t.ops[0], ast.In):
+                        ck = t.left.value
+                    visit(st.body, ck if ck else cond_key)
+                    visit(st.orelse, cond_key)
+                elif isinstance(st, ast.Assign) and len(st.targets) == 1:
+                    tg = st.targets[0]
+                    if isinstance(tg, ast.Subscript) and isinstance(tg.value, ast.Attribute) \
+                            and tg.value.attr == '__dict__' and isinstance(tg.slice, ast.Constant) \
+                            and tg.slice.value in KEYS:
+                        key = tg.slice.value
+                        v = st.value
+                        ok = (isinstance(v, ast.BinOp) and isinstance(v.op, op)
+                              and isinstance(v.left, ast.Attribute) and v.left.attr == key
+                              and factor_name in ast.unparse(v.right))
+                        if not ok:
+                            raise Unsupported(f'ProfileBase.{method}: unexpected rescale of {key}: {ast.unparse(v)}')
+                        if cond_key not in (None, key):
+                            raise Unsupported(f'ProfileBase.{method}: {key} guarded by {cond_key}')
+                        found[key] = (cond_key is None)
+        visit(m.body, None)
+        return found
+    norm = rescaled('normalize', 'normalization', ast.Div)
+    unnorm = rescaled('unnormalize', 'normalization_value', ast.Mult)
+    mnorm = _cls_method(t1, 'ProfileBase', 'normalize')
+    accumulates = any(isinstance(x, ast.AugAssign) and isinstance(x.op, ast.Mult) and isinstance(x.target, ast.Attribute)
+                      and x.target.attr == 'normalization_value' for x in ast.walk(mnorm))
+    munn = _cls_method(t1, 'ProfileBase', 'unnormalize')
+    resets_last = False
+    if munn.body:
+        last = munn.body[-1]
+        resets_last = (isinstance(last, ast.Assign) and isinstance(last.targets[0], ast.Attribute)
+                       and last.targets[0].attr == 'normalization_value' and isinstance(last.value, ast.Constant)
+                       and last.value.value == 1.0)
+    applies = {}
+    for key in KEYS:
+        try:
+            m = _cls_method(t2, 'RadialProfile', key)
+        except Unsupported:
+            applies[key] = False
+            continue
+        rets = [r for r in ast.walk(m) if isinstance(r, ast.Return)]
+        applies[key] = any('normalization_value' in ast.unparse(r.value) for r in rets if r.value is not None)
+    out = ('/- GENERATED by tools/extract_tables.py from photutils/profiles/{core,radial_profile}.py '
+           f'(sha256/16 {sha(src1 + src2)}). DO NOT EDIT. -/\n'
+           'import PhotVerif.Model.Prelude\nnamespace PhotVerif.Gen.ProfileTable\n\n'
+           '/-- per cached array (0 profile, 1 profile_error, 2 data_profile):\n'
+           '    inNormalize/inUnnormalize: is it rescaled there at all; uncond*: rescaled unconditionally (forcing a first read)\n'
+           '    rather than only "if cached"; firstReadAppliesNorm: the lazy property divides by normalization_value -/\n'
+           'structure Row where\n  inNormalize : Bool\n  uncondNormalize : Bool\n  inUnnormalize : Bool\n'
+           '  uncondUnnormalize : Bool\n  firstReadAppliesNorm : Bool\nderiving DecidableEq, Repr\n\n')
+    rows = []
+    for key in KEYS:
+        b = lambda v: 'true' if v else 'false'
+        rows.append(f'⟨{b(key in norm)}, {b(norm.get(key, False))}, {b(key in unnorm)}, {b(unnorm.get(key, False))}, '
+                    f'{b(applies[key])}⟩')
+    out += 'def rows : List Row := [' + ', '.join(rows) + ']\n\n'
+    out += f'def normalizeAccumulates : Bool := {"true" if accumulates else "false"}\n'
+    out += f'def unnormalizeResetsLast : Bool := {"true" if resets_last else "false"}\n\n'
+    out += 'end PhotVerif.Gen.ProfileTable\n'
+    return 'ProfileTable.lean', src1 + src2, out
+
+
+# ------------------------------------------------------------------ configuration written during calls
+def _attr_writes(func):
+    """names X of all `self.X = ...` / `self.X op= ...` targets in a function"""
+    out = set()
+    for x in ast.walk(func):
+        tgts = []
+        if isinstance(x, ast.Assign):
+            tgts = x.targets
+        elif isinstance(x, (ast.AugAssign, ast.AnnAssign)):
+            tgts = [x.target]
+        for t in tgts:
+            for y in ast.walk(t):
+                if isinstance(y, ast.Attribute) and isinstance(y.value, ast.Name) and y.value.id == 'self' \
+                        and isinstance(y.ctx, ast.Store):
+                    out.add(y.attr)
+    return out
+
+
+def gen_config_writes():
+    """for classes whose instances are called repeatedly: attributes assigned in __init__ (configuration),
+    attributes reset at the start of each call, attributes written by any other method"""
+    specs = [('photutils/psf/photometry.py', 'PSFPhotometry', '_reset_results'),
+             ('photutils/psf/photometry.py', 'IterativePSFPhotometry', '_reset_results')]
+    allsrc = ''
+    out_rows = []
+    for rel, cls, reset in specs:
+        src = open(os.path.join(REPO, rel)).read()
+        allsrc += src
+        tree = ast.parse(src)
+        cnode = next(n for n in tree.body if isinstance(n, ast.ClassDef) and n.name == cls)
+        meths = {m.name: m for m in cnode.body if isinstance(m, ast.FunctionDef)}
+        if '__init__' not in meths or reset not in meths:
+            raise Unsupported(f'{cls}: __init__ or {reset} missing')
+        init_w = _attr_writes(meths['__init__'])
+        reset_w = _attr_writes(meths[reset])
+        other_w = set()
+        for name, m in meths.items():
+            if name in ('__init__', reset):
+                continue
+            other_w |= _attr_writes(m)
+        call = meths.get('__call__')
+        calls_reset = call is not None and any(_is_self_call(st, reset) for st in call.body)
+        out_rows.append((cls, sorted(init_w), sorted(reset_w), sorted(other_w), calls_reset))
+    out = ('/- GENERATED by tools/extract_tables.py (configuration attributes written outside __init__) '
+           f'(sha256/16 {sha(allsrc)}). DO NOT EDIT. -/\n'
+           'import PhotVerif.Model.Prelude\nnamespace PhotVerif.Gen.ConfigWrites\n\n'
+           'structure ClassRow where\n  name : String\n  initAttrs : List String\n  resetAttrs : List String\n'
+           '  writtenElsewhere : List String\n  callResetsFirst : Bool\nderiving DecidableEq, Repr\n\n')
+    for cls, a, b, c, d in out_rows:
+        ls = lambda l: '[' + ', '.join(lean_str(x) for x in l) + ']'
+        out += (f'def row{cls} : ClassRow := {{ name := {lean_str(cls)}, initAttrs := {ls(a)}, resetAttrs := {ls(b)}, '
+                f'writtenElsewhere := {ls(c)}, callResetsFirst := {"true" if d else "false"} }}\n\n')
+    out += 'end PhotVerif.Gen.ConfigWrites\n'
+    return 'ConfigWrites.lean', allsrc, out
